@@ -503,6 +503,9 @@ class Interp:
         if len(e.generators) != 1: raise Unsupported("nested comprehension")
         gen = e.generators[0]
         it = it0
+        if "py_iter" in self.hooks:
+            r_ = self.hooks["py_iter"](it)
+            if r_ is not None: it = r_
         items = self.iterate_concrete_or_none(it)
         if items is not None:
             out = []
@@ -647,6 +650,8 @@ class Interp:
         if isinstance(op, (ast.In, ast.NotIn)):
             r = self.contains(b, a)
             return r if isinstance(op, ast.In) else not r
+        if isinstance(a, Dim) and isinstance(b, Dim) and isinstance(op, (ast.Eq, ast.NotEq)):
+            return (a == b) if isinstance(op, ast.Eq) else (a != b)
         if isinstance(a, PyNum) and isinstance(b, PyNum):
             if a.sign_term is not None and _is_zero(b): return _cmp(op, a.sign_term, z3.RealVal(0))
             if b.sign_term is not None and _is_zero(a): return _cmp(op, z3.RealVal(0), b.sign_term)
@@ -712,6 +717,7 @@ class Interp:
         return conv(a, b if isinstance(b, Qty) else a), conv(b, a if isinstance(a, Qty) else b)
 
     def contains(self, container, x):
+        if hasattr(container, "vf_contains"): return container.vf_contains(self, x)
         if isinstance(container, IntSet) and isinstance(x, PyNum):
             return self.eng.decide(container.pred(x.z))
         if isinstance(container, QIds) and isinstance(x, PyNum):
@@ -905,6 +911,7 @@ class Interp:
 
     # ================================================================== subscripts
     def subscript(self, base, key):
+        if hasattr(base, "vf_subscript"): return base.vf_subscript(self, key)
         if isinstance(base, DF):
             if key == "value": return Series(base)
             if isinstance(key, Mask):
@@ -1631,6 +1638,9 @@ class Interp:
             ts = [self.truth(x) for x in items]
             return all(ts) if name == "all" else any(ts)
         if name == "issubclass":
+            pc_ = self.hooks.get("py_class", lambda n: None)
+            real_ = [a_.obj if hasattr(a_, "obj") else pc_(getattr(a_, "name", None)) for a_ in args]
+            if all(r_ is not None for r_ in real_): return issubclass(real_[0], real_[1])
             if self.world is not None: return self.world.issubclass(args[0], args[1])
         if name == "map":
             f, xs = args
@@ -1666,6 +1676,9 @@ class Interp:
     def isinstance(self, x, cls):
         if isinstance(cls, tuple): return any(self.isinstance(x, c) for c in cls)
         if isinstance(x, ExplU): x = self.resolve(x)
+        if "py_isinstance" in self.hooks:
+            real = cls.obj if hasattr(cls, "obj") else self.hooks.get("py_class", lambda n: None)(getattr(cls, "name", None))
+            if real is not None: return self.hooks["py_isinstance"](x, real)
         cname = cls.name if isinstance(cls, (ClassRef, Builtin)) else getattr(cls, "vf_classname", None)
         if cname is None: raise Unsupported(f"isinstance class {cls!r}")
         if hasattr(x, "vf_isinstance"): return x.vf_isinstance(self, cname)
